@@ -42,6 +42,14 @@ import translate as T
 
 FILES = ['nitime/utils.py', 'nitime/timeseries.py', 'nitime/algorithms/spectral.py', 'nitime/algorithms/filter.py',
          'nitime/analysis/spectral.py']
+# the rest of the entry-point registry of harness/c16.py (every public routine of nitime.algorithms, every analyzer class);
+# order: callees before callers, base classes before derived ones (cross-file summaries / class attribute maps)
+FILES_EXTRA_BEFORE = ['nitime/algorithms/autoregressive.py', 'nitime/algorithms/cohere.py', 'nitime/algorithms/correlation.py',
+                      'nitime/algorithms/entropy.py', 'nitime/algorithms/event_related.py', 'nitime/algorithms/wavelet.py',
+                      'nitime/analysis/base.py']
+FILES_EXTRA_AFTER = ['nitime/analysis/coherence.py', 'nitime/analysis/correlation.py', 'nitime/analysis/event_related.py',
+                     'nitime/analysis/granger.py', 'nitime/analysis/normalization.py', 'nitime/analysis/snr.py']
+ALL_FILES = FILES[:1] + FILES[2:4] + FILES_EXTRA_BEFORE + FILES[1:2] + FILES[4:] + FILES_EXTRA_AFTER
 
 # ---------------------------------------------------------------- vocabulary
 VIEW_FUNCS = {'asarray', 'asanyarray', 'ascontiguousarray', 'asfortranarray', 'asfarray', 'atleast_1d', 'atleast_2d', 'atleast_3d',
@@ -111,10 +119,10 @@ def doc_scalar_params(fn):
 
 
 class Summary:
-    __slots__ = ('params', 'ret', 'writes')
+    __slots__ = ('params', 'ret', 'writes', 'ret_extra')
 
     def __init__(self, params):
-        self.params, self.ret, self.writes = params, set(), set()
+        self.params, self.ret, self.writes, self.ret_extra = params, set(), set(), set()
 
 
 E = frozenset()
@@ -186,9 +194,41 @@ class FnAnalysis:
             self.env[a.vararg.arg] = Val(E, [a.vararg.arg])
         if a.kwarg:
             self.env[a.kwarg.arg] = Val(E, [a.kwarg.arg])
+        # module-level mutable objects (caches, tables): a name that is not rebound locally IS that object
+        for g in MODULE_GLOBALS.get(CUR['module'], ()):
+            if g not in self.env:
+                self.env[g] = Val(['@' + g])
+        # what other methods of the class (and of its bases) bound to `self.<attr>`: parameters of THOSE methods,
+        # written 'Class.method:param' (the flows inside this method are followed statement by statement)
+        if cls:
+            own = qual + ':'
+            for c in class_chain(cls):
+                for attr, tags in CLASS_ATTRS.get(c, {}).items():
+                    tags = frozenset(t for t in tags if not t.startswith(own))
+                    if tags:
+                        cur = self.env.get('self.' + attr, FRESH)
+                        self.env['self.' + attr] = Val(cur.obj | tags, cur.held)
+                for attr in CLASS_LEVEL.get(c, ()):
+                    for root in ('self', 'cls', c):
+                        cur = self.env.get(root + '.' + attr, FRESH)
+                        self.env[root + '.' + attr] = Val(cur.obj | {'@%s.%s' % (c, attr)}, cur.held)
+        self.attr_binds = {}    # attr -> qualified aliases bound to self.<attr> anywhere in this method
         self.ret = set()
         self.writes = {}        # (line, kind, target) -> set of aliases
         self.bindings = {}      # (name, line) -> set of aliases
+
+    def qualified(self, aliases):
+        """aliases as seen from OTHER methods of the class: own parameters become 'Class.method:param'"""
+        out = set()
+        for a in aliases:
+            base, tilde = a.rstrip('~'), ('~' if a.endswith('~') else '')
+            if base in ('self', 'cls'):
+                continue
+            if ':' in base or base.startswith('@'):
+                out.add(a)
+            elif base in self.params:
+                out.add('%s:%s%s' % (self.qual, base, tilde))
+        return out
 
     # -- expressions -----------------------------------------------------
     def union(self, exprs):
@@ -212,6 +252,9 @@ class FnAnalysis:
             v = self.val(e.value)
             return Val(view(v.obj), v.held)          # something reachable from the object (`.T`, `.data`, `.real`, …)
         if isinstance(e, ast.Subscript):
+            if isinstance(e.value, ast.Name) and e.value.id in SCALAR_TABLES.get(CUR['module'], ()) and \
+                    self.env.get(e.value.id, FRESH).obj == frozenset(['@' + e.value.id]):
+                return FRESH                              # an entry of a module-level table of numbers / strings
             v = self.val(e.value)
             return Val(view(v.obj) | v.held, v.held)  # element of an array: a view; element of a container: the held object
         if isinstance(e, ast.Starred):
@@ -270,6 +313,13 @@ class FnAnalysis:
         elif isinstance(f, ast.Attribute) and dotted(f) and dotted(f).split('.')[0] in ('utils', 'tsu', 'ut') and f.attr in UTILS_SUMMARIES:
             sm = UTILS_SUMMARIES[f.attr]
             return sm, self.bind_args(sm, call, False)
+        elif isinstance(f, ast.Attribute) and dotted(f) and dotted(f).split('.')[0] in ('tsa', 'alg', 'algorithms') and \
+                dotted(f).split('.')[0] not in self.env and f.attr in ALG_SUMMARIES:
+            sm = ALG_SUMMARIES[f.attr]
+            return sm, self.bind_args(sm, call, False)
+        elif isinstance(f, ast.Name) and f.id in ALG_SUMMARIES and f.id not in self.env:
+            sm = ALG_SUMMARIES[f.id]
+            return sm, self.bind_args(sm, call, False)
         if name is None:
             return None, None
         sm = self.summaries[name]
@@ -303,7 +353,7 @@ class FnAnalysis:
             for p in sm.ret:
                 if p in bound:
                     r |= self.val(bound[p]).reach()
-            return Val(r)
+            return Val(r | frozenset(sm.ret_extra))      # + constructor arguments of the class / module-level objects
         first = c.args[0] if c.args else None
         from_sequence = isinstance(first, (ast.List, ast.Tuple, ast.ListComp, ast.GeneratorExp))
         if isinstance(f, ast.Attribute):
@@ -336,6 +386,8 @@ class FnAnalysis:
                 if f.attr in VIEWMAKING_FUNCS and not from_sequence:
                     r |= view(self.all_args(c).reach())
                 return Val(r)
+            if f.attr in HOLDING_CTORS and root in ('ts', 'timeseries') and root not in self.env:
+                return Val(E, view(self.all_args(c).reach()))     # the new series wraps the array it is given
             if root in FRESH_MODULES and root not in self.env:
                 return FRESH
             recv = self.val(f.value)
@@ -354,6 +406,8 @@ class FnAnalysis:
                 return Val(E, recv.reach())
             return Val(recv.reach() | self.all_args(c).reach())          # unknown method: conservative
         if isinstance(f, ast.Name):
+            if f.id in HOLDING_CTORS and f.id not in self.env:
+                return Val(E, view(self.all_args(c).reach()))
             if f.id in FRESH_BUILTINS or f.id in IMPORTED_FRESH:
                 return FRESH
             if f.id in CONTAINER_FUNCS:
@@ -433,6 +487,7 @@ class FnAnalysis:
             same = frozenset(x for x in base.obj if not x.endswith('~'))
             if path and path.split('.')[0] in ('self', 'cls') and path.count('.') == 1:
                 self.env[path] = v          # the object remembers what it was given
+                self.attr_binds.setdefault(path.split('.')[1], set()).update(self.qualified(v.reach()))
                 self.write(target, 'setattr', target, same)
             else:
                 self.write(target, 'setattr', target, same)
@@ -573,8 +628,53 @@ class FnAnalysis:
 
 
 IMPORTED_FRESH = {'lfilter', 'hilbert', 'detrend', 'warn', 'deepcopy'}
+HOLDING_CTORS = {'TimeSeries'}     # TimeSeries(data, …) keeps np.asarray(data): the object shares the caller's buffer
 CLASS_BASES = {}
 UTILS_SUMMARIES = {}
+ALG_SUMMARIES = {}
+CLASS_ATTRS = {}        # class -> attr -> {'Class.method:param', '@global', …} bound to self.<attr> in any method
+CLASS_LEVEL = {}        # class -> names assigned to a mutable object in the class body (shared by all instances)
+MODULE_GLOBALS = {}     # module -> names assigned to a mutable object at module level
+SCALAR_TABLES = {}      # module -> module-level dict literals whose values are numbers / strings
+CUR = {'module': None}
+
+
+def class_chain(cls, seen=None):
+    seen = seen or []
+    if cls in seen:
+        return seen
+    seen.append(cls)
+    for b in CLASS_BASES.get(cls, []):
+        class_chain(b, seen)
+    return seen
+
+
+def mutable_literal(v):
+    """module / class level value that is an object somebody could later write to or hand out"""
+    if isinstance(v, (ast.Dict, ast.List, ast.Set, ast.ListComp, ast.DictComp, ast.SetComp)):
+        return True
+    if isinstance(v, ast.Call):
+        d = dotted(v.func) or ''
+        return d.split('.')[-1] not in ('int', 'float', 'str', 'bool', 'complex', 'ceil', 'floor', 'dtype', 'compile', 'getLogger', 'frozenset',
+                                        'tuple', 'namedtuple', 'auto_attr', 'property')
+    return False
+
+
+def scan_module_state(mod, tree):
+    globs, tables = set(), set()
+    for n in tree.body:
+        if isinstance(n, ast.Assign) and len(n.targets) == 1 and isinstance(n.targets[0], ast.Name) and not n.targets[0].id.startswith('__'):
+            if mutable_literal(n.value):
+                globs.add(n.targets[0].id)
+                if isinstance(n.value, ast.Dict) and all(isinstance(x, (ast.Constant, ast.BinOp, ast.UnaryOp)) for x in n.value.values):
+                    tables.add(n.targets[0].id)
+        elif isinstance(n, ast.ClassDef):
+            for m in n.body:
+                if isinstance(m, ast.Assign) and len(m.targets) == 1 and isinstance(m.targets[0], ast.Name) and mutable_literal(m.value) \
+                        and not m.targets[0].id.startswith('__'):
+                    CLASS_LEVEL.setdefault(n.name, set()).add(m.targets[0].id)
+    MODULE_GLOBALS[mod] = globs
+    SCALAR_TABLES[mod] = tables
 
 
 def functions_of(tree):
@@ -599,19 +699,30 @@ def param_names(f):
 
 def analyse_file(path):
     tree = T.parse(path)
+    mod = path[len('nitime/'):-3].replace('/', '.')
+    CUR['module'] = mod
+    scan_module_state(mod, tree)
     fns = functions_of(tree)
     summaries = {q: Summary(param_names(f)) for q, f, _ in fns}
     results = {}
-    for _ in range(8):
+    for _ in range(10):
         changed = False
         for q, f, cls in fns:
             r = FnAnalysis(q, f, summaries, cls).run()
             results[q] = r
             ret = {p for p in r.ret if p in r.params}
+            extra = {p for p in r.ret if ':' in p or p.startswith('@')}
             wr = {p for ws in r.writes.values() for p in ws if p in r.params and p not in ('self', 'cls')}
-            if ret != summaries[q].ret or wr != summaries[q].writes:
-                summaries[q].ret, summaries[q].writes = ret, wr
+            if ret != summaries[q].ret or wr != summaries[q].writes or extra != summaries[q].ret_extra:
+                summaries[q].ret, summaries[q].writes, summaries[q].ret_extra = ret, wr, extra
                 changed = True
+            if cls:
+                for attr, tags in r.attr_binds.items():
+                    cur = CLASS_ATTRS.setdefault(cls, {}).setdefault(attr, set())
+                    new = {t.rstrip('~') for t in tags}
+                    if not new <= cur:
+                        cur |= new
+                        changed = True
         if not changed:
             break
     return fns, summaries, results
